@@ -444,7 +444,11 @@ def run_conc(prop, scenarios, work, tag):
 
 # protocol models: kind -> (MC module, exhaustive cfgs quick, exhaustive cfgs thorough, simulation cfgs, variant cfgs)
 CONC_MODELS = {
-    "ping": ("MCPingProto", ["ping_q1", "ping_q2", "ping_q3"], ["ping_t1", "ping_t2"], ["ping_sim"],
+    "signal": ("MCSignalProto", ["sig_q1", "sig_q2", "sig_q6"], [], ["sig_enum3", "sig_sim1"], []),
+    "blockon": ("MCSignalProto", ["sig_q3", "sig_q4", "sig_q5"], [], ["sig_enum1", "sig_enum2", "sig_sim3"], ["sig_var_swap", "sig_var_notify"]),
+    "chan": ("MCChanProto", ["chan_q1", "chan_q2", "chan_q3", "chan_q4"], ["chan_t1", "chan_t2", "chan_t3"], ["chan_enum1", "chan_sim1", "chan_sim2"],
+             ["chan_var_wake", "chan_var_rearm", "chan_var_droporder", "chan_kf_rendezvous"]),
+    "ping": ("MCPingProto", ["ping_q1", "ping_q2", "ping_q3"], ["ping_t1", "ping_t2"], ["ping_enum1", "ping_sim"],
              ["ping_var_noreset", "ping_var_close", "ping_var_marker"]),
 }
 
@@ -480,11 +484,17 @@ def model_schedules(kind, prop, tier, seed, work, res):
     """behaviours (schedules) of the protocol model -> scenarios for drive_sched, with the events the model predicts"""
     mod, _, _, sims, _ = CONC_MODELS[kind]
     scns, preds = [], {}
-    n = 60 if tier == "quick" else 1500
+    n = (12 if kind in ("signal", "blockon") else 60) if tier == "quick" else 1500
+    import random as _random
     for cfg in sims:
         meta = os.path.join(work, "simmeta_" + cfg)
-        cmd = ["tlc", "-workers", "4", "-simulate", "num=%d" % n, "-depth", "400", "-seed", str(seed), "-metadir", meta,
-               "-cleanup", "-noGenerateSpecTE", "-config", "mc/%s.cfg" % cfg, mod + ".tla"]
+        enum = "_enum" in cfg
+        if enum:
+            # breadth-first run with the history in the state: every complete behaviour is printed exactly once
+            cmd = ["tlc", "-workers", "4", "-metadir", meta, "-cleanup", "-noGenerateSpecTE", "-config", "mc/%s.cfg" % cfg, mod + ".tla"]
+        else:
+            cmd = ["tlc", "-workers", "4", "-simulate", "num=%d" % n, "-depth", "400", "-seed", str(seed), "-metadir", meta,
+                   "-cleanup", "-noGenerateSpecTE", "-config", "mc/%s.cfg" % cfg, mod + ".tla"]
         p = sh(cmd, cwd=SPEC, env=tlc_env(), timeout=900, check=False)
         shutil.rmtree(meta, ignore_errors=True)
         if "is violated" in p.stdout:
@@ -494,7 +504,16 @@ def model_schedules(kind, prop, tier, seed, work, res):
             res.viol.append({"prop": prop, "scn": "model-sim:" + cfg, "clauses": ["model:" + ",".join(re.findall(r"Invariant (\w+) is violated", p.stdout))],
                              "replay": cex, "first_line": 0})
         seen = set()
-        for m in re.finditer(r'<<"SCHED", "(.*)">>', p.stdout):
+        found = list(re.finditer(r'<<"SCHED", "(.*)">>', p.stdout))
+        if enum:
+            cap = (90 if kind in ("signal", "blockon") else 350) if tier == "quick" else 6000
+            res.notes.append("%s: %d complete behaviours enumerated by TLC, %s replayed" % (cfg, len(found), "all" if len(found) <= cap else "%d (seeded sample)" % cap))
+            if len(found) > cap:
+                found = _random.Random(seed).sample(found, cap)
+            mg = parse_tlc_counts(p.stdout)
+            res.states += mg[1]
+            res.transitions += mg[0]
+        for m in found:
             try:
                 b = json.loads(json.loads('"' + m.group(1) + '"'))
             except Exception:
@@ -507,12 +526,19 @@ def model_schedules(kind, prop, tier, seed, work, res):
             scripts = b["scripts"]
             threads = {str(i + 1): scripts[i] for i in range(len(scripts))}
             scn = {"id": sid, "kind": kind, "threads": threads, "loop": ["dispatch"] * b["ndisp"],
-                   "schedule": b["sched"][:-1], "from_model": 1}
+                   "schedule": b["sched"][:-1], "from_model": 1, "idle_ms": 4}
+            if b.get("mode") == "run":
+                scn["kind"], scn["loop"] = "signal", ["run"]
+            elif b.get("mode") == "blockon":
+                scn["kind"], scn["loop"] = "blockon", [{"op": "block_on", "need": b["need"]}]
+                scn["threads"] = {t: [{"op": "wake", "f": 0} if o == "wake" else o for o in ops] for t, ops in threads.items()}
             for k in ("cap", "limit"):
                 if k in b and b[k] not in (None, -1):
                     scn[k] = b[k]
             scns.append(scn)
-            preds[sid] = b["hist"]
+            # a blocked thread is woken by another thread, not by the scheduler: the global order of its next
+            # events is not determined by the schedule -> such behaviours are compared per thread
+            preds[sid] = (b["hist"], bool(b.get("blocked")))
         mm = re.search(r"The number of states generated: (\d+)", p.stdout)
         if mm:
             res.states += int(mm.group(1))
@@ -531,9 +557,15 @@ def conc_conformance(preds, trace_path, res, label):
         if cur:
             real[cur].append(ev)
     same = div = 0
-    for sid, hist in preds.items():
+    def per_thread(seq):
+        out = {}
+        for x in seq:
+            t = x[1] if x[0] in ("y", "call", "ret") else 0
+            out.setdefault(t, []).append(x)
+        return out
+    for sid, (hist, blocked) in preds.items():
         a, b = conc_project(hist), conc_project(real.get(sid, []))
-        if a == b:
+        if a == b or (blocked and per_thread(a) == per_thread(b)):
             same += 1
         else:
             div += 1
@@ -574,7 +606,7 @@ def engine_conc(prop, tier, seed, work):
                 r = run_conc(prop, scns, work, "concm_" + kind)
                 res.merge(r)
                 conc_conformance(preds, os.path.join(work, "concm_" + kind + "_trace.ndjson"), res, kind)
-        n = {"ping": 150, "chan": 120, "exec": 150, "signal": 60, "blockon": 60}[kind]
+        n = {"ping": 150, "chan": 120, "exec": 150, "signal": 15, "blockon": 20}[kind]
         if tier == "thorough":
             n *= 12
         scns = gen_sched.gen(seed, n, kind)
@@ -696,7 +728,12 @@ def main():
                 res.merge(run_conc(prop, [rp["scenario"]], work, "replay"))
             elif rp.get("engine") in ("transient", "signals", "token", "asyncio", "timeout"):
                 import importlib
-                res.merge(importlib.import_module("engine_" + rp["engine"]).replay(prop, rp, work))
+                fn = importlib.import_module("engine_" + rp["engine"]).replay
+                import inspect
+                if len(inspect.signature(fn).parameters) >= 3:
+                    res.merge(fn(prop, rp, work))
+                else:
+                    res.merge(fn(args[args.index("--replay") + 1], work))
             else:
                 res.merge(run_core(prop, [rp["scenario"]], work, "replay"))
         else:
